@@ -108,7 +108,7 @@ def ref_model(rule, kind, n, lo, hi):
         first, last = lo, hi
         Kx = bins_exact(rule, n)
         if kind == "i" and hi - lo < Kx:
-            K = ceil_frac(rnd(hi - lo))
+            K = ceil_frac(hi - lo)            # width < 1 -> width = 1; the small integer range is exact
         else:
             if kind == "f" and d < F(2) ** -1000:
                 return ("unmodelled",)
@@ -140,6 +140,10 @@ def build_array(d):
     n, lo, hi = d["n"], d["lo"], d["hi"]
     a = np.empty(n, dtype=DT[d["dtype"]])
     if n == 0:
+        return a
+    if n > 20000:                       # large arrays (search mode): only size, min and max matter
+        a[:] = lo
+        a[n // 2:] = hi
         return a
     rng = random.Random(d.get("fill_seed", 0))
     if d["dtype"] == "float64":
@@ -465,9 +469,26 @@ def search(seed, budget):
             kx = bins_exact(rule, n)
             for lo, hi in ((0, 1), (0, 5), (-7, 13), (0, 1000), (-2 ** 62, 2 ** 62), (3, 3), (0, max(1, kx - 1)), (0, kx), (0, kx + 1)):
                 consider(dict(rule=rule, dtype="int64", n=n, lo=lo, hi=hi if n > 1 else lo, fill_seed=n))
+    # large n: every exact point and its two neighbours (number of bins AND edges, two ranges)
+    big = set()
+    for k in range(12, 23):
+        big.update((2 ** k - 1, 2 ** k, 2 ** k + 1))
+    for k in list(range(55, 2050, 97)) + [2047, 2048]:
+        big.update((k * k - 1, k * k, k * k + 1))
+    for k in range(15, 161, 5):
+        big.update((k ** 3 - 1, k ** 3, k ** 3 + 1))
+    nbig = 0
+    for n in sorted(big):
+        if tried >= budget:
+            break
+        nbig += 1
+        for rule in RULES:
+            consider(dict(rule=rule, dtype="float64", n=n, lo=0.0, hi=1.0, fill_seed=n))
+            consider(dict(rule=rule, dtype="float64", n=n, lo=-3.7, hi=11.3, fill_seed=n))
+            consider(dict(rule=rule, dtype="int64", n=n, lo=-7, hi=100000, fill_seed=n))
     while tried < budget:
         consider(gen_corr(rng, 4000))
-    return dict(tried=tried, exhaustive_n=nexh, facts=facts, failures=failures)
+    return dict(tried=tried, exhaustive_n=nexh, large_n_points=nbig, facts=facts, failures=failures)
 
 
 # ------------------------------------------------------------------ main
